@@ -876,6 +876,13 @@ class Interp:
             else:
                 if a is TOP:
                     return TOP
+                if _is_abstract(a) and not hasattr(a, 'pqv_concrete_eq'):
+                    try:
+                        if any(x is a for x in (b.keys() if isinstance(b, dict) else b)):
+                            return True if isinstance(op, ast.In) else False
+                    except TypeError:
+                        pass
+                    return TOP          # symbolic value: membership in constants is unknown
                 if _contains_top(b):
                     try:
                         if any(x == a for x in (b.keys() if isinstance(b, dict) else b) if x is not TOP):
